@@ -160,6 +160,10 @@ def run_property(prop, mod, tier="quick", seed=0, update_lock=False):
     if hasattr(mod, "bounded"):
       for b in mod.bounded(tier, seed):
             bounded.append(b)
+            if b.get("error"):
+                # a stand-in that produced no result (time-out, harness crash) has explored nothing: the run is undecided,
+                # it must count neither as held nor as a violation
+                engine_errors.append(f"bounded/{b.get('name')}: no result ({str(b['error'])[-200:]})")
             if b.get("known_seen"):
                 for k2 in known.get("findings", []):
                     if k2.get("property") == prop and k2.get("bounded") == b["name"]:
